@@ -20,6 +20,7 @@ TRUSTED_BASE = [
 def quiet_lenskit():
     import logging, warnings
     warnings.simplefilter("ignore")
+    logging.disable(logging.CRITICAL)
     import structlog
     structlog.configure(wrapper_class=structlog.make_filtering_bound_logger(logging.CRITICAL))
 
@@ -159,7 +160,8 @@ def run_check(spec: CheckSpec, tier: str, seed: int, replay: str | None = None, 
     class_counts: dict[str, int] = {}
     samples: list = []
     evaluations = 0; violations = 0; known_hits: dict[str, int] = {}
-    exit_code = 0
+    exit_code = 0; reported: dict[tuple, int] = {}; unlabelled = 0
+    MAX_VIOLATIONS = int(os.environ.get("LKV_MAX_VIOLATIONS", "3"))
     corpus_dir = ROOT / "corpus" / spec.pid
     def cases():
         if replay:
@@ -194,16 +196,23 @@ def run_check(spec: CheckSpec, tier: str, seed: int, replay: str | None = None, 
             if verdict == "violation" and _all_known(out2.finding_key, findings):
                 for kx in _keys(out2.finding_key): known_hits[kx] = known_hits.get(kx, 0) + 1
                 continue
+            sig = _keys(out2.finding_key) if verdict == "violation" else ("no-failing-input-found",)
+            if sig and sig in reported:                # one replay per distinct failure signature; further cases are counted
+                reported[sig] += 1; continue
+            if not sig and unlabelled >= 3:
+                continue
+            if sig: reported[sig] = 1
+            else: unlabelled += 1
             violations += 1
             rp = ROOT / "replays"; rp.mkdir(exist_ok=True, parents=True)
             path = rp / f"{spec.pid}-{seed}-{violations}.json"
             path.write_text(json.dumps({"property": spec.pid, "tier": tier, "seed": seed, "case": small, "detail": out2.detail,
                                         "verdict": verdict, "theorems": spec.theorems, "correspondence": spec.correspondence_ops,
-                                        "known_finding": None}, indent=1, default=str))
+                                        "signature": list(sig), "known_finding": None}, indent=1, default=str))
             tail = "" if verdict == "violation" else " no-failing-input-found"
             print(f"VIOLATION property={spec.pid} replay={path}{tail}")
             exit_code = 1
-            if violations >= 3: break
+            if violations >= MAX_VIOLATIONS: break
         for k, n in known_hits.items():
             f = next(f for f in findings if f["match"] == k)
             print(f"KNOWN-FINDING: property={spec.pid} {f['what']} ({n} cases this run)")
@@ -222,7 +231,7 @@ def run_check(spec: CheckSpec, tier: str, seed: int, replay: str | None = None, 
             "trusted_base": TRUSTED_BASE,
             "evaluations": evaluations, "distinct_nontrivial": len(seen), "rule": spec.nontrivial_rule,
             "samples": samples, "traces_validated_against_impl": evaluations,
-            "boundary_classes": class_counts, "known_finding_hits": known_hits,
+            "boundary_classes": class_counts, "known_finding_hits": known_hits, "violation_signatures": {" + ".join(k): n for k, n in reported.items()},
             "theorems": spec.theorems, "correspondence_ops": spec.correspondence_ops,
         },
         "assumptions": TRUSTED_BASE, "wall_s": round(time.time() - t0, 2), "violations": violations,
